@@ -1,13 +1,652 @@
 package main
 
-import "context"
+// Counterexample replay: solver model -> concrete inputs -> run of the real function (go test -overlay) -> observed behaviour.
+
+import (
+	"context"
+	"encoding/json"
+	"fmt"
+	"go/types"
+	"os"
+	"os/exec"
+	"path/filepath"
+	"regexp"
+	"strconv"
+	"strings"
+	"time"
+
+	"golang.org/x/tools/go/ssa"
+)
 
 func contextBG() context.Context { return context.Background() }
 
-// replayObligation turns a solver model into a concrete run of the real function (see replay_gen.go).
+const replayElems = 48
+
+type rpQuery struct {
+	terms []string
+	idx   map[string]int
+}
+
+func (q *rpQuery) add(t string) {
+	if _, ok := q.idx[t]; ok {
+		return
+	}
+	q.idx[t] = len(q.terms)
+	q.terms = append(q.terms, t)
+}
+
+type rpBuilder struct {
+	ctx   *Ctx
+	r     *FuncResult
+	fn    *ssa.Function
+	q     *rpQuery
+	vals  map[string]string // term -> value literal (after solving)
+	pkg   *types.Package
+	notes []string
+	decls []string // statements building values
+	nvar  int
+	skip  string
+	curIdx string
+}
+
+func (b *rpBuilder) heapSym(key string) (string, bool) {
+	if !b.r.Keys[key] {
+		return "", false
+	}
+	return symSafe(key) + "@0", true
+}
+
+// collect: phase 1 registers the terms needed for a value of type t given its leaf terms.
+func (b *rpBuilder) collect(t types.Type, L []string, depth int) {
+	for _, l := range L {
+		b.q.add(l)
+	}
+	if depth > 3 {
+		return
+	}
+	switch u := t.Underlying().(type) {
+	case *types.Pointer:
+		if st, ok := u.Elem().Underlying().(*types.Struct); ok {
+			base := "H|" + typeKey(u.Elem())
+			b.collectStruct(st, base, "", L[0], depth, false)
+		} else if len(layout(u.Elem())) == 1 {
+			if s, ok := b.heapSym("C|" + typeKey(u.Elem())); ok {
+				b.q.add(sel(s, L[0]))
+			}
+		}
+	case *types.Slice:
+		b.collectElems(u.Elem(), L[0], L[1], depth)
+	case *types.Basic:
+		if isString(t) {
+			b.collectElems(types.Typ[types.Uint8], L[0], L[1], depth)
+		}
+	case *types.Interface:
+		// abstract streams
+		for _, g := range []string{"rlen", "rpos", "wlen"} {
+			if s, ok := b.heapSym("H|ghost." + g); ok {
+				b.q.add(sel(s, L[1]))
+			}
+		}
+		if s, ok := b.heapSym("H|ghost.rdata"); ok {
+			for i := 0; i < replayElems; i++ {
+				b.q.add(sel(sel(s, L[1]), c64(int64(i))))
+			}
+		}
+	}
+}
+
+func (b *rpBuilder) collectStruct(st *types.Struct, base, path, ref string, depth int, elem bool) {
+	for i := 0; i < st.NumFields(); i++ {
+		f := st.Field(i)
+		ls := layout(f.Type())
+		var L []string
+		ok := true
+		for _, l := range ls {
+			s, have := b.heapSym(base + path + "." + f.Name() + l.Path)
+			if !have {
+				ok = false
+				break
+			}
+			if elem {
+				L = append(L, sel(sel(s, ref), b.curIdx))
+			} else {
+				L = append(L, sel(s, ref))
+			}
+		}
+		if !ok {
+			continue
+		}
+		if _, isStruct := f.Type().Underlying().(*types.Struct); isStruct {
+			for _, l := range L {
+				b.q.add(l)
+			}
+			continue
+		}
+		b.collect(f.Type(), L, depth+1)
+	}
+}
+
+func (b *rpBuilder) collectElems(et types.Type, ref, off string, depth int) {
+	ls := layout(et)
+	n := replayElems
+	if len(ls) > 1 {
+		n = 6
+	}
+	for i := 0; i < n; i++ {
+		idx := bvadd(off, c64(int64(i)))
+		var L []string
+		ok := true
+		for _, l := range ls {
+			s, have := b.heapSym("M|" + typeKey(et) + l.Path)
+			if !have {
+				ok = false
+				break
+			}
+			L = append(L, sel(sel(s, ref), idx))
+		}
+		if !ok {
+			return
+		}
+		if len(ls) == 1 && (isInt(et) || isBool(et)) {
+			b.q.add(L[0])
+			continue
+		}
+		if depth < 2 {
+			b.collect(et, L, depth+2)
+		} else {
+			for _, l := range L {
+				b.q.add(l)
+			}
+		}
+	}
+}
+
+func (b *rpBuilder) v(term string) (uint64, bool) {
+	s, ok := b.vals[term]
+	if !ok {
+		if n, isC := constInt(term); isC {
+			return uint64(n), true
+		}
+		return 0, false
+	}
+	switch {
+	case strings.HasPrefix(s, "#x"):
+		x, err := strconv.ParseUint(s[2:], 16, 64)
+		return x, err == nil
+	case strings.HasPrefix(s, "#b"):
+		x, err := strconv.ParseUint(s[2:], 2, 64)
+		return x, err == nil
+	case s == "true":
+		return 1, true
+	case s == "false":
+		return 0, true
+	}
+	if strings.HasPrefix(s, "(_ bv") {
+		var x uint64
+		var w int
+		if n, _ := fmt.Sscanf(s, "(_ bv%d %d)", &x, &w); n == 2 {
+			return x, true
+		}
+	}
+	return 0, false
+}
+
+func (b *rpBuilder) qual(t types.Type) string {
+	return types.TypeString(t, func(p *types.Package) string {
+		if p == b.pkg {
+			return ""
+		}
+		return p.Name()
+	})
+}
+
+// expr: phase 2 builds a Go expression for a value of type t from the model.
+func (b *rpBuilder) expr(t types.Type, L []string, depth int) string {
+	switch u := t.Underlying().(type) {
+	case *types.Basic:
+		switch {
+		case isBool(t):
+			x, _ := b.v(L[0])
+			return fmt.Sprintf("%s(%v)", b.qual(t), x != 0)
+		case isString(t):
+			bs := b.bytesOf(L[0], L[1], L[2])
+			if bs == nil {
+				return `""`
+			}
+			return fmt.Sprintf("%s(%s)", b.qual(t), bytesLit(bs, true))
+		case isInt(t):
+			x, _ := b.v(L[0])
+			w := widthOf(t)
+			if isSigned(t) {
+				var sx int64
+				switch w {
+				case 8:
+					sx = int64(int8(x))
+				case 16:
+					sx = int64(int16(x))
+				case 32:
+					sx = int64(int32(x))
+				default:
+					sx = int64(x)
+				}
+				return fmt.Sprintf("%s(%d)", b.qual(t), sx)
+			}
+			return fmt.Sprintf("%s(%d)", b.qual(t), x)
+		}
+		return "0"
+	case *types.Slice:
+		ref, _ := b.v(L[0])
+		if ref == 0 {
+			return "nil"
+		}
+		ln, _ := b.v(L[2])
+		if int64(ln) < 0 || ln > 1<<20 {
+			b.skip = fmt.Sprintf("model needs a slice of length %d", int64(ln))
+			return "nil"
+		}
+		if isInt(u.Elem()) && widthOf(u.Elem()) == 8 && !isSigned(u.Elem()) {
+			bs := b.bytesOf(L[0], L[1], L[2])
+			return fmt.Sprintf("%s(%s)", b.qual(t), bytesLit(bs, false))
+		}
+		n := int(ln)
+		var elems []string
+		ls := layout(u.Elem())
+		maxE := replayElems
+		if len(ls) > 1 {
+			maxE = 6
+		}
+		for i := 0; i < n && i < maxE; i++ {
+			idx := bvadd(L[1], c64(int64(i)))
+			var EL []string
+			ok := true
+			for _, l := range ls {
+				s, have := b.heapSym("M|" + typeKey(u.Elem()) + l.Path)
+				if !have {
+					ok = false
+					break
+				}
+				EL = append(EL, sel(sel(s, L[0]), idx))
+			}
+			if !ok {
+				break
+			}
+			elems = append(elems, b.expr(u.Elem(), EL, depth+2))
+		}
+		if n > len(elems) {
+			b.notes = append(b.notes, fmt.Sprintf("slice of %d elements: only first %d taken from the model, rest zero", n, len(elems)))
+			return fmt.Sprintf("append(%s{%s}, make(%s, %d)...)", b.qual(t), strings.Join(elems, ", "), b.qual(t), n-len(elems))
+		}
+		return fmt.Sprintf("%s{%s}", b.qual(t), strings.Join(elems, ", "))
+	case *types.Pointer:
+		ref, _ := b.v(L[0])
+		if ref == 0 {
+			return "nil"
+		}
+		if depth > 3 {
+			return "nil"
+		}
+		if st, ok := u.Elem().Underlying().(*types.Struct); ok {
+			return "&" + b.structLit(u.Elem(), st, "H|"+typeKey(u.Elem()), "", L[0], "", depth)
+		}
+		if len(layout(u.Elem())) == 1 {
+			if s, ok := b.heapSym("C|" + typeKey(u.Elem())); ok {
+				b.nvar++
+				name := fmt.Sprintf("cell%d", b.nvar)
+				b.decls = append(b.decls, fmt.Sprintf("%s := %s", name, b.expr(u.Elem(), []string{sel(s, L[0])}, depth+1)))
+				return "&" + name
+			}
+		}
+		return fmt.Sprintf("new(%s)", b.qual(u.Elem()))
+	case *types.Struct:
+		// struct value with leaves L
+		return b.structFromLeaves(t, u, L, depth)
+	case *types.Interface:
+		tag, _ := b.v(L[0])
+		if tag == 0 {
+			return "nil"
+		}
+		ts := typeKeyFull(t)
+		switch {
+		case ts == "error":
+			return `errors.New("replay")`
+		case ts == "io.Writer":
+			return "&bytes.Buffer{}"
+		case ts == "io.Reader" || ts == "io.ReadSeeker":
+			var bs []byte
+			rlen := uint64(0)
+			if s, ok := b.heapSym("H|ghost.rlen"); ok {
+				rlen, _ = b.v(sel(s, L[1]))
+			}
+			if rlen > 1<<20 {
+				b.skip = fmt.Sprintf("model needs a reader of %d bytes", rlen)
+				return "nil"
+			}
+			if s, ok := b.heapSym("H|ghost.rdata"); ok {
+				for i := 0; i < int(rlen) && i < replayElems; i++ {
+					x, _ := b.v(sel(sel(s, L[1]), c64(int64(i))))
+					bs = append(bs, byte(x))
+				}
+			}
+			for len(bs) < int(rlen) {
+				bs = append(bs, 0)
+			}
+			rpos := uint64(0)
+			if s, ok := b.heapSym("H|ghost.rpos"); ok {
+				rpos, _ = b.v(sel(s, L[1]))
+			}
+			b.nvar++
+			name := fmt.Sprintf("rd%d", b.nvar)
+			b.decls = append(b.decls, fmt.Sprintf("%s := bytes.NewReader(%s)", name, bytesLit(bs, false)), fmt.Sprintf("%s.Seek(%d, 0)", name, int64(rpos)))
+			return name
+		}
+		b.notes = append(b.notes, "interface value of type "+ts+" left nil")
+		return "nil"
+	case *types.Map:
+		return "nil"
+	case *types.Array:
+		return b.qual(t) + "{}"
+	}
+	return "nil"
+}
+
+func (b *rpBuilder) structFromLeaves(t types.Type, st *types.Struct, L []string, depth int) string {
+	var fs []string
+	off := 0
+	for i := 0; i < st.NumFields(); i++ {
+		f := st.Field(i)
+		n := len(layout(f.Type()))
+		if off+n > len(L) {
+			break
+		}
+		fs = append(fs, fmt.Sprintf("%s: %s", f.Name(), b.expr(f.Type(), L[off:off+n], depth+1)))
+		off += n
+	}
+	return fmt.Sprintf("%s{%s}", b.qual(t), strings.Join(fs, ", "))
+}
+
+func (b *rpBuilder) structLit(t types.Type, st *types.Struct, base, path, ref, idx string, depth int) string {
+	var fs []string
+	for i := 0; i < st.NumFields(); i++ {
+		f := st.Field(i)
+		if f.Pkg() != nil && f.Pkg() != b.pkg && !f.Exported() {
+			continue
+		}
+		ls := layout(f.Type())
+		var L []string
+		ok := true
+		for _, l := range ls {
+			s, have := b.heapSym(base + path + "." + f.Name() + l.Path)
+			if !have {
+				ok = false
+				break
+			}
+			if idx != "" {
+				L = append(L, sel(sel(s, ref), idx))
+			} else {
+				L = append(L, sel(s, ref))
+			}
+		}
+		if !ok || len(ls) == 0 {
+			continue
+		}
+		fs = append(fs, fmt.Sprintf("%s: %s", f.Name(), b.expr(f.Type(), L, depth+1)))
+	}
+	return fmt.Sprintf("%s{%s}", b.qual(t), strings.Join(fs, ", "))
+}
+
+func (b *rpBuilder) bytesOf(ref, off, ln string) []byte {
+	n, _ := b.v(ln)
+	if int64(n) < 0 || n > 1<<20 {
+		b.skip = fmt.Sprintf("model needs %d bytes", int64(n))
+		return nil
+	}
+	s, ok := b.heapSym("M|uint8")
+	out := make([]byte, 0, n)
+	for i := 0; i < int(n); i++ {
+		if ok && i < replayElems {
+			x, _ := b.v(sel(sel(s, ref), bvadd(off, c64(int64(i)))))
+			out = append(out, byte(x))
+		} else {
+			out = append(out, 0)
+		}
+	}
+	if int(n) > replayElems {
+		b.notes = append(b.notes, fmt.Sprintf("%d bytes: only first %d from the model", n, replayElems))
+	}
+	return out
+}
+
+func bytesLit(bs []byte, str bool) string {
+	if len(bs) > 4096 {
+		// long runs: make + prefix
+		var parts []string
+		for _, x := range bs[:replayElems] {
+			parts = append(parts, fmt.Sprintf("0x%02x", x))
+		}
+		return fmt.Sprintf("append([]byte{%s}, make([]byte, %d)...)", strings.Join(parts, ","), len(bs)-replayElems)
+	}
+	var parts []string
+	for _, x := range bs {
+		parts = append(parts, fmt.Sprintf("0x%02x", x))
+	}
+	return "[]byte{" + strings.Join(parts, ",") + "}"
+}
+
+var reGetValue = regexp.MustCompile(`(?s)\(\((.*)\)\)`)
+
+// parseGetValue parses z3's "((term value) (term value) ...)" output, aligned with the query order.
+func parseGetValue(out string, terms []string) map[string]string {
+	res := map[string]string{}
+	i := strings.Index(out, "((")
+	if i < 0 {
+		return res
+	}
+	root := parseSx(out[i:])
+	for k, pair := range root.kids {
+		if k < len(terms) && len(pair.kids) == 2 {
+			res[terms[k]] = pair.kids[1].String()
+		}
+	}
+	return res
+}
+
 func replayObligation(ctx *Ctx, r *FuncResult, i int, o *Obl) map[string]interface{} {
-	return map[string]interface{}{"confirmed": false, "note": "replay not available for this obligation kind"}
+	out := map[string]interface{}{"confirmed": false}
+	fn := ctx.funcs[r.Key]
+	if fn == nil || fn.Pkg == nil {
+		out["note"] = "function not addressable for replay"
+		return out
+	}
+	b := &rpBuilder{ctx: ctx, r: r, fn: fn, q: &rpQuery{idx: map[string]int{}}, pkg: fn.Pkg.Pkg}
+	for pi, p := range fn.Params {
+		if pi < len(r.ParamVals) {
+			b.collect(p.Type(), r.ParamVals[pi].L, 0)
+		}
+	}
+	// solve again asking for the values; prefer small inputs (lengths <= 40), fall back to any model
+	script := singleScript(r, i, false)
+	var small []string
+	for pi, p := range fn.Params {
+		if pi >= len(r.ParamVals) {
+			continue
+		}
+		ls := layout(p.Type())
+		for li, l := range ls {
+			if l.Kind == 'L' && strings.HasSuffix(l.Path, ".len") && li < len(r.ParamVals[pi].L) {
+				small = append(small, app("bvsle", r.ParamVals[pi].L[li], c64(40)))
+			}
+		}
+	}
+	for _, t := range b.q.terms {
+		if strings.Contains(t, "H!ghost.rlen@0") || strings.HasSuffix(strings.Fields(t)[0], ".len@0") {
+			small = append(small, app("bvsle", t, c64(40)))
+		}
+	}
+	sout := ""
+	for attempt := 0; attempt < 2; attempt++ {
+		var sb strings.Builder
+		body := script
+		if attempt == 0 && len(small) > 0 {
+			body = strings.Replace(script, "(check-sat)\n", "(assert "+and(small...)+")\n(check-sat)\n", 1)
+		} else if attempt == 0 {
+			continue
+		}
+		sb.WriteString(body)
+		if len(b.q.terms) > 0 {
+			sb.WriteString("(get-value (" + strings.Join(b.q.terms, " ") + "))\n")
+		}
+		f := tmpFile("replay", sb.String())
+		c2, cancel := context.WithTimeout(context.Background(), 40*time.Second)
+		sout, _ = runSolver(c2, solvers[0], f, 30000, false)
+		cancel()
+		os.Remove(f)
+		if strings.HasPrefix(strings.TrimSpace(sout), "sat") {
+			break
+		}
+	}
+	if !strings.HasPrefix(strings.TrimSpace(sout), "sat") {
+		out["note"] = "model extraction failed: " + truncate(sout, 300)
+		return out
+	}
+	b.vals = parseGetValue(sout, b.q.terms)
+	var args []string
+	for pi, p := range fn.Params {
+		if pi < len(r.ParamVals) {
+			args = append(args, b.expr(p.Type(), r.ParamVals[pi].L, 0))
+		}
+	}
+	if b.skip != "" {
+		out["note"] = "replay skipped: " + b.skip
+		return out
+	}
+	call := ""
+	if recv := fn.Signature.Recv(); recv != nil {
+		call = fmt.Sprintf("(%s).%s(%s)", args[0], fn.Name(), strings.Join(args[1:], ", "))
+	} else {
+		call = fmt.Sprintf("%s(%s)", fn.Name(), strings.Join(args, ", "))
+	}
+	nres := fn.Signature.Results().Len()
+	lhs := ""
+	if nres > 0 {
+		var rs []string
+		for k := 0; k < nres; k++ {
+			rs = append(rs, fmt.Sprintf("r%d", k))
+		}
+		lhs = strings.Join(rs, ", ") + " := "
+	}
+	var prints []string
+	for k := 0; k < nres; k++ {
+		prints = append(prints, fmt.Sprintf("fmt.Sprintf(\"%%#v\", r%d)", k))
+	}
+	resExpr := "[]string{" + strings.Join(prints, ", ") + "}"
+	src := fmt.Sprintf(`package %s
+
+import (
+	"bytes"
+	"encoding/json"
+	"errors"
+	"fmt"
+	"os"
+	"testing"
+	"time"
+)
+
+var _ = bytes.NewReader
+var _ = errors.New
+
+func TestGovcReplay(t *testing.T) {
+	type outT struct {
+		Panic   string   `+"`json:\"panic\"`"+`
+		Timeout bool     `+"`json:\"timeout\"`"+`
+		Results []string `+"`json:\"results\"`"+`
+	}
+	var o outT
+	done := make(chan struct{})
+	go func() {
+		defer close(done)
+		defer func() {
+			if r := recover(); r != nil {
+				o.Panic = fmt.Sprint(r)
+			}
+		}()
+		%s
+		%s%s
+		o.Results = %s
+	}()
+	select {
+	case <-done:
+	case <-time.After(10 * time.Second):
+		o.Timeout = true
+	}
+	b, _ := json.Marshal(o)
+	os.WriteFile(os.Getenv("GOVC_REPLAY_OUT"), b, 0o644)
+}
+`, fn.Pkg.Pkg.Name(), strings.Join(b.decls, "\n\t\t"), lhs, call, resExpr)
+	out["call"] = call
+	out["notes"] = b.notes
+	pkgDir := ""
+	if p := ctx.pkgs[fn.Pkg.Pkg.Path()]; p != nil && len(p.GoFiles) > 0 {
+		pkgDir = filepath.Dir(p.GoFiles[0])
+	}
+	if pkgDir == "" {
+		out["note"] = "no package directory"
+		return out
+	}
+	os.MkdirAll(scratchDir, 0o755)
+	tf := filepath.Join(scratchDir, fmt.Sprintf("replay_%d_%d_test.go", os.Getpid(), time.Now().UnixNano()))
+	os.WriteFile(tf, []byte(src), 0o644)
+	defer os.Remove(tf)
+	ov := map[string]interface{}{"Replace": map[string]string{filepath.Join(pkgDir, "zz_govc_replay_test.go"): tf}}
+	ovb, _ := json.Marshal(ov)
+	ovf := tf + ".overlay.json"
+	os.WriteFile(ovf, ovb, 0o644)
+	defer os.Remove(ovf)
+	resf := tf + ".out.json"
+	defer os.Remove(resf)
+	c3, cancel3 := context.WithTimeout(context.Background(), 120*time.Second)
+	defer cancel3()
+	cmd := exec.CommandContext(c3, "go", "test", "-overlay", ovf, "-vet=off", "-count=1", "-timeout", "60s", "-run", "^TestGovcReplay$", ".")
+	cmd.Dir = pkgDir
+	cmd.Env = append(os.Environ(), "GOFLAGS=-mod=mod", "GOPROXY=off", "GOSUMDB=off", "GOTOOLCHAIN=local", "GOVC_REPLAY_OUT="+resf)
+	cout, _ := cmd.CombinedOutput()
+	rb, err := os.ReadFile(resf)
+	if err != nil {
+		out["note"] = "replay test did not produce a result: " + truncate(string(cout), 600)
+		out["test_source"] = src
+		return out
+	}
+	var obs struct {
+		Panic   string   `json:"panic"`
+		Timeout bool     `json:"timeout"`
+		Results []string `json:"results"`
+	}
+	json.Unmarshal(rb, &obs)
+	out["observed"] = obs
+	out["test_source"] = src
+	kind := o.Kind
+	if j := strings.Index(kind, ":"); j >= 0 {
+		kind = kind[:j]
+	}
+	switch {
+	case contains(safetyKinds, kind) || kind == "pre":
+		if obs.Panic != "" {
+			out["confirmed"] = true
+			out["what"] = "the real function panics on the model input: " + obs.Panic
+		}
+	case kind == "dec":
+		if obs.Timeout {
+			out["confirmed"] = true
+			out["what"] = "the real function does not return within 10 s on the model input"
+		}
+	}
+	return out
 }
 
 func runExtra(ctx *Ctx, what, id string, ev map[string]interface{}, report func(string, map[string]interface{}, bool), known map[string]knownFinding) {
+	switch what {
+	case "globals":
+		extraGlobals(ctx, id, ev, report, known)
+	case "registry":
+		extraRegistry(ctx, id, ev, report, known)
+	}
 }
